@@ -243,6 +243,20 @@ fn op_ref<T: Pod, M: VolatileMemory>(c: &M, st: &mut St, t: &mut Tape, cx: &mut 
         }
         Err(e) => ensure!(!fits, "get_ref::<{}>({}) refused ({}) although it fits in {} bytes", T::NAME, off, verr(&e), size),
     }
+    if fits && t.flag() {
+        // the byte view of the reference shows the same bytes
+        let r = c.get_ref::<T>(off).map_err(|e| verr(&e))?;
+        ensure!(r.ptr_guard().len() == T::N, "get_ref::<{}>: guard of {} bytes", T::NAME, r.ptr_guard().len());
+        let s = r.to_slice();
+        ensure!(s.len() == T::N, "get_ref::<{}>({}).to_slice().len() = {}", T::NAME, off, s.len());
+        let mut b = vec![0u8; T::N];
+        s.read_slice(&mut b, 0).map_err(|e| format!("get_ref.to_slice().read_slice: {}", verr(&e)))?;
+        ensure!(b[..] == st.model[off..off + T::N], "get_ref::<{}>({}).to_slice() reads {}, model {}", T::NAME, off, hexs(&b), hexs(&st.model[off..off + T::N]));
+        let data = t.bytes(T::N);
+        s.write_slice(&data, 0).map_err(|e| format!("get_ref.to_slice().write_slice: {}", verr(&e)))?;
+        st.wr(off, &data, 2);
+        note!(cx, "get_ref::<{}>({}).to_slice() read+write", T::NAME, off);
+    }
     Ok(())
 }
 
@@ -271,7 +285,7 @@ fn op_array<T: Pod, M: VolatileMemory>(c: &M, st: &mut St, t: &mut Tape, cx: &mu
     };
     ensure!(ar.len() == n && ar.element_size() == T::N && ar.is_empty() == (n == 0), "VolatileArrayRef len/element_size/is_empty");
     classify_span(size, off, n * T::N, cx);
-    let sub = t.below(7);
+    let sub = t.below(8);
     match sub {
         0 if n > 0 => {
             let i = t.idx(n);
@@ -350,14 +364,124 @@ fn op_array<T: Pod, M: VolatileMemory>(c: &M, st: &mut St, t: &mut Tape, cx: &mu
                 cx.nt("overlapping_slice_copy");
             }
         }
+        6 => {
+            // copy_to_volatile_slice into memory outside the container / from an element array
+            // outside the container into a slice of it (the two sides are mapped differently)
+            if t.flag() {
+                let dlen = match t.below(3) {
+                    0 => n * T::N,
+                    1 => n * T::N + 1 + t.idx(4),
+                    _ => t.idx(n * T::N + 1),
+                };
+                let mut local = vec![0xEEu8; dlen + 8];
+                // SAFETY: live local buffer.
+                let dst = unsafe { VolatileSlice::new(local.as_mut_ptr().add(4), dlen) };
+                note!(cx, "array::<{}>({},{}).copy_to_volatile_slice(extern[{}])", T::NAME, off, n, dlen);
+                ar.copy_to_volatile_slice(dst);
+                let cnt = (n * T::N).min(dlen);
+                ensure!(local[4..4 + cnt] == st.model[off..off + cnt], "array::<{}>({},{}).copy_to_volatile_slice(extern[{}]) delivered {}, model {}", T::NAME, off, n, dlen, hexs(&local[4..4 + cnt]), hexs(&st.model[off..off + cnt]));
+                ensure!(local[..4].iter().all(|b| *b == 0xEE) && local[4 + cnt..].iter().all(|b| *b == 0xEE), "copy_to_volatile_slice wrote outside the {} bytes it may copy", cnt);
+                if cnt > 0 {
+                    st.rd_mark(off, cnt, 5, cx);
+                }
+            } else {
+                let doff = t.idx(size + 1);
+                let dlen = t.idx(size - doff + 1);
+                let m = match t.below(3) {
+                    0 => dlen / T::N,
+                    1 => dlen / T::N + 1 + t.idx(2),
+                    _ => t.idx(dlen / T::N + 1),
+                };
+                let mut data = t.bytes(m * T::N);
+                // SAFETY: live local buffer of m elements.
+                let ext = unsafe { VolatileSlice::new(data.as_mut_ptr(), m * T::N) };
+                let ea = ext.get_array_ref::<T>(0, m).map_err(|e| verr(&e))?;
+                let dst = c.get_slice(doff, dlen).map_err(|e| format!("get_slice({},{}) on {}: {}", doff, dlen, size, verr(&e)))?;
+                note!(cx, "extern array::<{}>[{}].copy_to_volatile_slice(container[{}..+{}])", T::NAME, m, doff, dlen);
+                ea.copy_to_volatile_slice(dst);
+                let cnt = (m * T::N).min(dlen);
+                let src = data[..cnt].to_vec();
+                st.wr(doff, &src, 5);
+            }
+            cx.nt("copy_between_container_and_outside");
+        }
         _ => {
             let s = ar.to_slice();
             ensure!(s.len() == n * T::N, "array.to_slice().len() = {}, want {}", s.len(), n * T::N);
             if let Some(h) = st.host {
                 ensure!(s.ptr_guard().as_ptr() == h.wrapping_add(off) as *const u8, "array.to_slice() points elsewhere");
             }
+            // the byte view shows the elements' bytes
+            let k = (n * T::N).min(48);
+            let mut b = vec![0u8; k];
+            s.read_slice(&mut b, 0).map_err(|e| format!("array.to_slice().read_slice: {}", verr(&e)))?;
+            ensure!(b[..] == st.model[off..off + k], "array::<{}>({},{}).to_slice() reads {}, model {}", T::NAME, off, n, hexs(&b), hexs(&st.model[off..off + k]));
+            if n > 0 {
+                let i = t.idx(n);
+                let rs = ar.ref_at(i).to_slice();
+                let mut e = vec![0u8; T::N];
+                rs.read_slice(&mut e, 0).map_err(|e| format!("ref_at.to_slice().read_slice: {}", verr(&e)))?;
+                let o = off + i * T::N;
+                ensure!(e[..] == st.model[o..o + T::N], "array::<{}>({},{}).ref_at({}).to_slice() reads {}, model {}", T::NAME, off, n, i, hexs(&e), hexs(&st.model[o..o + T::N]));
+            }
             note!(cx, "array::<{}>({},{}).to_slice()", T::NAME, off, n);
         }
+    }
+    Ok(())
+}
+
+/// Plain references handed out by the container (only where it has a stable host address): a
+/// fitting, aligned request is granted and the reference shows / changes exactly the named bytes.
+fn op_typed<T: Pod, M: VolatileMemory>(c: &M, st: &mut St, t: &mut Tape, cx: &mut Cx) -> Result<(), String> {
+    let size = st.model.len();
+    if st.host.is_none() {
+        return Ok(());
+    }
+    let off = pick_off(t, size);
+    let fits = off as u128 + T::N as u128 <= size as u128;
+    let aligned = st.align_base.wrapping_add(off) % std::mem::align_of::<T>() == 0;
+    let mutable = t.flag();
+    note!(cx, "aligned_as_{}::<{}>({})", if mutable { "mut" } else { "ref" }, T::NAME, off);
+    classify_span(size, off, T::N, cx);
+    if mutable {
+        let data = t.bytes(T::N);
+        // SAFETY: the case owns the memory; no other reference or access exists while this one lives.
+        match unsafe { c.aligned_as_mut::<T>(off) } {
+            Ok(r) => {
+                ensure!(fits && aligned, "aligned_as_mut::<{}>({}) granted (fits={}, aligned={})", T::NAME, off, fits, aligned);
+                *r = T::from_b(&data);
+                st.wr(off, &data, 6);
+            }
+            Err(e) => ensure!(!(fits && aligned), "aligned_as_mut::<{}>({}) refused ({}) although the request fits in {} bytes and the address is aligned to {}", T::NAME, off, verr(&e), size, std::mem::align_of::<T>()),
+        }
+    } else {
+        // SAFETY: as above.
+        match unsafe { c.aligned_as_ref::<T>(off) } {
+            Ok(r) => {
+                ensure!(fits && aligned, "aligned_as_ref::<{}>({}) granted (fits={}, aligned={})", T::NAME, off, fits, aligned);
+                let v = r.to_b();
+                ensure!(v[..] == st.model[off..off + T::N], "aligned_as_ref::<{}>({}) shows {}, model {}", T::NAME, off, hexs(&v), hexs(&st.model[off..off + T::N]));
+                st.rd_mark(off, T::N, 6, cx);
+            }
+            Err(e) => ensure!(!(fits && aligned), "aligned_as_ref::<{}>({}) refused ({}) although the request fits in {} bytes and the address is aligned to {}", T::NAME, off, verr(&e), size, std::mem::align_of::<T>()),
+        }
+    }
+    if !(fits && aligned) {
+        cx.nt("typed_reference_refused");
+    }
+    // an atomic reference at the same place
+    let a_fits = off as u128 + 4 <= size as u128;
+    let a_aligned = st.align_base.wrapping_add(off) % 4 == 0;
+    match c.get_atomic_ref::<std::sync::atomic::AtomicU32>(off) {
+        Ok(a) => {
+            ensure!(a_fits && a_aligned, "get_atomic_ref::<AtomicU32>({}) granted (fits={}, aligned={})", off, a_fits, a_aligned);
+            let v = a.load(std::sync::atomic::Ordering::SeqCst).to_ne_bytes();
+            ensure!(v[..] == st.model[off..off + 4], "get_atomic_ref::<AtomicU32>({}) loads {}, model {}", off, hexs(&v), hexs(&st.model[off..off + 4]));
+            let data = t.bytes(4);
+            a.store(u32::from_ne_bytes([data[0], data[1], data[2], data[3]]), std::sync::atomic::Ordering::SeqCst);
+            st.wr(off, &data, 7);
+        }
+        Err(e) => ensure!(!(a_fits && a_aligned), "get_atomic_ref::<AtomicU32>({}) refused ({}) although it fits and is aligned", off, verr(&e)),
     }
     Ok(())
 }
@@ -710,7 +834,11 @@ pub fn history_alt<M: VolatileMemory, B: vm_memory::bitmap::Bitmap>(c: &M, alt: 
             Some(_) => t.flag(),
             None => false,
         };
-        match t.below(11) {
+        match t.below(12) {
+            11 => {
+                let sel = t.idx(NPOD);
+                with_pod!(sel, op_typed, c, &mut st, t, cx)?
+            }
             10 if via_region => {
                 cx.nt("region_level_interface");
                 note!(cx, "[region] ");
@@ -820,7 +948,7 @@ fn run_xen(_t: &mut Tape, _cx: &mut Cx) -> Result<(), String> {
 pub fn property() -> Property {
     Property {
         id: "C04",
-        rule: "a case = one container (VolatileSlice of 0..96 bytes at any base alignment mod 16 inside a canary frame, or an MmapRegion of 1 byte..2 pages +- odd, addressed as a slice and through the byte-access interface of the guest region around it; xen build: emulated Unix / foreign / grant regions incl. regions mapped on demand, judged through the device file) + a history of 1..30 operations over every accessor kind (Bytes write/read/write_slice/read_slice/write_obj/read_obj/store/load, get_ref store/load, get_array_ref load/store/ref_at/copy_to/copy_from/copy_to_volatile_slice/to_slice, slice copy_to/copy_from for 11 element types, slice-to-slice copies incl. overlapping) with offsets inside/touching/crossing the end and buffer lengths around 7..9 and around the remaining length; model compared with the raw memory and the frame after every step; non-trivial = op touches or crosses the container end, length in 7..=9, buffer length != container length, overlapping copy, refused atomic, or a read through a route different from the one that wrote the bytes; distinct = decoded (container, history)",
+        rule: "a case = one container (VolatileSlice of 0..96 bytes at any base alignment mod 16 inside a canary frame, or an MmapRegion of 1 byte..2 pages +- odd, addressed as a slice and through the byte-access interface of the guest region around it; xen build: emulated Unix / foreign / grant regions incl. regions mapped on demand, judged through the device file) + a history of 1..30 operations over every accessor kind (Bytes write/read/write_slice/read_slice/write_obj/read_obj/store/load, get_ref store/load/to_slice, get_array_ref load/store/ref_at/copy_to/copy_from/copy_to_volatile_slice (inside the container, to and from memory outside it)/to_slice, aligned_as_ref/aligned_as_mut/get_atomic_ref (granted iff fitting and aligned), slice copy_to/copy_from for 11 element types, slice-to-slice copies incl. overlapping) with offsets inside/touching/crossing the end and buffer lengths around 7..9 and around the remaining length; model compared with the raw memory and the frame after every step; non-trivial = op touches or crosses the container end, length in 7..=9, buffer length != container length, overlapping copy, refused atomic, or a read through a route different from the one that wrote the bytes; distinct = decoded (container, history)",
         assumptions: &["values are encoded with to_ne/le/be_bytes, not through ByteValued::as_slice", "zero-sized element types are C18's business"],
         subchecks: vec![
             SubCheck { name: "slice", builds: &[Build::Std], kind: Kind::Random { quick: 60_000, thorough: 3_000_000, max_words: 260 }, run: run_slice },
